@@ -209,6 +209,9 @@ def percent_format(tree):
 # N3  module-level constants and compiled patterns
 # ----------------------------------------------------------------------
 
+_MODULE_FUNCS = set()  # set by inline_module_constants for the module at hand
+
+
 def _is_const_expr(e):
     if isinstance(e, ast.Constant):
         return isinstance(e.value, (str, bytes, int, float, bool, type(None)))
@@ -224,6 +227,8 @@ def _is_const_expr(e):
     # free local state are fixed once the class body has run
     if isinstance(e, ast.Attribute) and isinstance(e.value, ast.Name) and e.attr[:1].isupper():
         return True
+    if isinstance(e, ast.Name) and e.id in _MODULE_FUNCS:
+        return True  # a module-level function that is never rebound
     if isinstance(e, ast.Lambda) and not e.args.defaults and not e.args.kw_defaults:
         params = {a.arg for a in e.args.posonlyargs + e.args.args + e.args.kwonlyargs}
         free = {n.id for n in ast.walk(e.body) if isinstance(n, ast.Name)} - params
@@ -431,6 +436,10 @@ def inline_module_constants(tree):
             for nm in n.names:
                 counts[nm] = counts.get(nm, 0) + 2
     consts = {}
+    _MODULE_FUNCS.clear()
+    stored_anywhere = {n.id for n in ast.walk(tree) if isinstance(n, ast.Name) and isinstance(n.ctx, (ast.Store, ast.Del))} | {a.arg for a in ast.walk(tree) if isinstance(a, ast.arg)}
+    fdefs = [s_.name for s_ in tree.body if isinstance(s_, ast.FunctionDef)]
+    _MODULE_FUNCS.update(n_ for n_ in fdefs if fdefs.count(n_) == 1 and n_ not in stored_anywhere and n_.startswith("_") and n_ not in counts)
     for s in tree.body:
         if isinstance(s, ast.Assign) and len(s.targets) == 1 and isinstance(s.targets[0], ast.Name) and counts.get(s.targets[0].id) == 1:
             nm = s.targets[0].id
@@ -2234,6 +2243,151 @@ def _reuse_dead_names(fn):
     return changed
 
 
+def _option_tuple_elim(fn):
+    """the last two statements of a loop body:
+           if ..: v = (a, b)  elif ..: v = None  else: v = None if c else (x, y)        (v bound only at the ends of the arms)
+           if v is None: A  else: p, q = v; B                                              (v used nowhere else)
+       ->  the arms bind p, q directly and go on to B, or do A and `continue`: a result that is 'nothing, or a tuple' only to be
+           taken apart at once is a case distinction"""
+    changed = False
+    for loop in [n for n in _walk_same_function(fn) if isinstance(n, (ast.For, ast.While))]:
+        body = loop.body
+        if len(body) < 2 or not isinstance(body[-1], ast.If) or not isinstance(body[-2], ast.If):
+            continue
+        S, T = body[-2], body[-1]
+        t = T.test
+        if not (isinstance(t, ast.Compare) and len(t.ops) == 1 and isinstance(t.ops[0], (ast.Is, ast.IsNot)) and isinstance(t.left, ast.Name) and isinstance(t.comparators[0], ast.Constant) and t.comparators[0].value is None):
+            continue
+        v = t.left.id
+        on_none, other = (T.body, T.orelse) if isinstance(t.ops[0], ast.Is) else (T.orelse, T.body)
+        if not other or not (isinstance(other[0], ast.Assign) and len(other[0].targets) == 1 and isinstance(other[0].targets[0], ast.Tuple) and isinstance(other[0].value, ast.Name) and other[0].value.id == v
+                             and all(isinstance(e, ast.Name) for e in other[0].targets[0].elts)):
+            continue
+        targets = other[0].targets[0].elts
+        k = len(targets)
+        if any(isinstance(x, (ast.Break,)) for a_ in on_none for x in ast.walk(a_)):
+            continue
+
+        def value_ok(e):
+            if isinstance(e, ast.Constant) and e.value is None:
+                return True
+            if isinstance(e, ast.Tuple) and len(e.elts) == k and not any(isinstance(x, ast.Starred) for x in e.elts):
+                return True
+            if isinstance(e, ast.IfExp):
+                return value_ok(e.body) and value_ok(e.orelse)
+            return False
+        binds = []
+
+        def tails(lst):
+            """assignments to v must be the last statement of an arm; returns False when v is bound elsewhere"""
+            for i_, s_ in enumerate(lst):
+                last = i_ == len(lst) - 1
+                if isinstance(s_, ast.Assign) and any(isinstance(x, ast.Name) and x.id == v for t_ in s_.targets for x in ast.walk(t_)):
+                    if not (last and len(s_.targets) == 1 and isinstance(s_.targets[0], ast.Name) and value_ok(s_.value)):
+                        return False
+                    binds.append((lst, s_))
+                elif isinstance(s_, ast.If):
+                    if any(isinstance(x, ast.Name) and x.id == v for x in ast.walk(s_.test)):
+                        return False
+                    if not last and any(isinstance(x, ast.Name) and x.id == v for x in ast.walk(s_)):
+                        return False
+                    if not tails(s_.body) or not tails(s_.orelse):
+                        return False
+                elif any(isinstance(x, ast.Name) and x.id == v for x in ast.walk(s_)):
+                    return False
+            return True
+        if not tails([S]) or not binds:
+            continue
+        # every path through S binds v
+        def always(lst):
+            if not lst:
+                return False
+            s_ = lst[-1]
+            if isinstance(s_, ast.Assign) and any(s_ is b_[1] for b_ in binds):
+                return True
+            if isinstance(s_, (ast.Continue, ast.Return, ast.Raise)):
+                return True
+            if isinstance(s_, ast.If):
+                return always(s_.body) and always(s_.orelse)
+            return False
+        if not always([S]):
+            continue
+        n_all = sum(1 for x in ast.walk(fn) if isinstance(x, ast.Name) and x.id == v)
+        if n_all != len(binds) + 2:
+            continue
+
+        def expand(e, at):
+            if isinstance(e, ast.Constant):
+                return [copy.deepcopy(a_) for a_ in on_none] + [ast.copy_location(ast.Continue(), at)]
+            if isinstance(e, ast.Tuple):
+                return [ast.fix_missing_locations(ast.copy_location(ast.Assign(targets=[ast.Name(id=t_.id, ctx=ast.Store())], value=x_), at)) for t_, x_ in zip(targets, e.elts)]
+            return [ast.fix_missing_locations(ast.copy_location(ast.If(test=e.test, body=expand(e.body, at), orelse=expand(e.orelse, at)), at))]
+        # the tuple elements are evaluated before any target is bound: they must not read the targets
+        tn = {t_.id for t_ in targets}
+        if any(isinstance(x, ast.Name) and x.id in tn for _l, b_ in binds for x in ast.walk(b_.value)):
+            continue
+        for lst, b_ in binds:
+            lst[lst.index(b_):lst.index(b_) + 1] = expand(b_.value, b_)
+        loop.body = body[:-1] + other[1:]
+        if not loop.body:
+            loop.body = [ast.copy_location(ast.Pass(), T)]
+        changed = True
+    return changed
+
+
+def _option_tuple_distribute(fn):
+    """v = (a, b) if c1 else (x, y) if c2 else None;  if v is not None: p, q = v; B  else: A       (v used nowhere else)
+       ->  if c1: p = a; q = b; B  elif c2: p = x; q = y; B  else: A"""
+    changed = False
+    for lst in list(_stmt_lists(fn)):
+        i = 0
+        while i + 1 < len(lst):
+            a, T = lst[i], lst[i + 1]
+            i += 1
+            if not (isinstance(a, ast.Assign) and len(a.targets) == 1 and isinstance(a.targets[0], ast.Name) and isinstance(a.value, ast.IfExp) and isinstance(T, ast.If)):
+                continue
+            v = a.targets[0].id
+            t = T.test
+            if not (isinstance(t, ast.Compare) and len(t.ops) == 1 and isinstance(t.ops[0], (ast.Is, ast.IsNot)) and isinstance(t.left, ast.Name) and t.left.id == v
+                    and isinstance(t.comparators[0], ast.Constant) and t.comparators[0].value is None):
+                continue
+            on_none, other = (T.body, T.orelse) if isinstance(t.ops[0], ast.Is) else (T.orelse, T.body)
+            if not other or not (isinstance(other[0], ast.Assign) and len(other[0].targets) == 1 and isinstance(other[0].targets[0], ast.Tuple) and isinstance(other[0].value, ast.Name) and other[0].value.id == v
+                                 and all(isinstance(e, ast.Name) for e in other[0].targets[0].elts)):
+                continue
+            targets = other[0].targets[0].elts
+            k = len(targets)
+            leaves = []
+
+            def ok(e):
+                if isinstance(e, ast.IfExp):
+                    return ok(e.body) and ok(e.orelse)
+                leaves.append(e)
+                return (isinstance(e, ast.Constant) and e.value is None) or (isinstance(e, ast.Tuple) and len(e.elts) == k and not any(isinstance(x, ast.Starred) for x in e.elts))
+            if not ok(a.value):
+                continue
+            if sum(1 for x in ast.walk(fn) if isinstance(x, ast.Name) and x.id == v) != 3:
+                continue
+            n_none = sum(1 for e in leaves if isinstance(e, ast.Constant))
+            n_tup = len(leaves) - n_none
+            size = lambda ss: sum(1 for s_ in ss for _ in ast.walk(s_))
+            if (n_none > 1 and size(on_none) > 40) or (n_tup > 1 and size(other[1:]) > 40):
+                continue
+            tn = {t_.id for t_ in targets}
+            if any(isinstance(x, ast.Name) and x.id in tn for e in leaves for x in ast.walk(e)):
+                continue
+
+            def expand(e):
+                if isinstance(e, ast.Constant):
+                    return [copy.deepcopy(s_) for s_ in on_none] or [ast.copy_location(ast.Pass(), T)]
+                if isinstance(e, ast.Tuple):
+                    return [ast.fix_missing_locations(ast.copy_location(ast.Assign(targets=[ast.Name(id=t_.id, ctx=ast.Store())], value=x_), a)) for t_, x_ in zip(targets, e.elts)] + [copy.deepcopy(s_) for s_ in other[1:]]
+                return [ast.fix_missing_locations(ast.copy_location(ast.If(test=e.test, body=expand(e.body), orelse=expand(e.orelse)), a))]
+            lst[i - 1:i + 1] = expand(a.value)
+            changed = True
+    return changed
+
+
 def _merge_copy_tails(fn):
     """if c: A; p = v  else: B; p = v   ->   if c: A  else: B;  p = v      (the same plain copy ends both arms)"""
     changed = False
@@ -2292,6 +2446,8 @@ def explain_vars(fn):
     """substitute `v = <pure expr>` (v assigned once, in a straight statement list) into the uses that follow in the same list,
     when nothing between the definition and a use can change what the expression reads"""
     _reuse_dead_names(fn)
+    _option_tuple_elim(fn)
+    _option_tuple_distribute(fn)
     if _merge_copy_tails(fn):
         pass
     for _ in range(3):
@@ -2526,6 +2682,11 @@ def normalize_package(trees, known=None, passes=None):
         if on(3):
             inline_module_constants(t)
             inline_class_constants(t)
+            _Fold().visit(t)
+        if on(8) and on(3):
+            # loops over constant tables are sequences: written out before helpers are unfolded (a helper that searches a table
+            # becomes a chain of tests)
+            unroll_const_loops(t)
             _Fold().visit(t)
         if on(4):
             with_lock(t)
